@@ -696,14 +696,6 @@ Proof.
   destruct (canon_nofuel_all c fx Hfd fuel) as (NF & _ & _). apply NF. split; [lia|]. left. lia.
 Qed.
 
-(* ------------------------------------------------------------------ not proved (kept visible) *)
-(* canon_alloc_partial / copy_alloc_partial.  Full statement: the bytes appended to the
-   destination (sum over segments of zlen (mem dst' i) - zlen (mem dst i)) are at most
-   3 * (w_src_rl w - w_src_rl w') + 24 * (pointer slots of the top-level object) + its own
-   padded size: every object copied below the top level was charged its read size by readPtr
-   (a zero-sized list element one word), its copy takes that size padded to a word (< +8) plus
-   at most one 16-byte landing pad, and the number of pointers written is bounded by the slots
-   paid for by the parent (LimitProofs.slots_le_readSize).
-   Proved instead: the destination only grows ([grows]), the source budget never increases
-   and stays >= 0 ([wgood]), and with C02_traversal the consumed budget is at most T.
-   Missing: a byte-count ghost in the [wgood] invariant and the per-object arithmetic. *)
+(* The allocation bounds (bytes appended to the destination vs traversal budget consumed) are in
+   Value/CanonAlloc.v (canon_alloc_all, canonicalize_alloc) and Core/CopyAlloc.v
+   (copy_alloc_all, write_ptr_alloc, copy_struct_alloc). *)
